@@ -1,6 +1,6 @@
 (* C08 — inline(m) denotes exactly the function of m, for any valid m.  Property theorems only. *)
 From Coq Require Import List String Bool Arith.
-From Spox Require Import Base IR Show Build Sem Plan Validate BuildFacts Inline InlineFacts CompilePres ScopeFacts InlineDefs InlineInj.
+From Spox Require Import Base IR Show Build Sem Plan Validate BuildFacts Inline InlineFacts CompilePres ScopeFacts InlineDefs InlineInj InlineSeq.
 Import ListNotations.
 
 (* Call boundary: positional arguments bind in input order, keywords by name, omitted inputs take the default of that name. *)
@@ -109,3 +109,24 @@ Theorem C08_renaming_is_injective :
   d = d' \/ (index_last d in_names 0 None <> None /\ index_last d' in_names 0 None <> None).
 Proof. exact Rn_injective. Qed.
 Print Assumptions C08_renaming_is_injective.
+
+(* ... and in ORDER: the definitions of the emitted block are the renaming (relation Rn of the final state) of a subsequence of the
+   definitions of the inlined model, position by position - omitted ("") outputs are the only ones dropped; together with injectivity
+   an inlined model that defines every name once yields a block that defines every non-empty name once (InlineSeq.Seq_NoDup). *)
+Theorem C08_block_definitions_are_the_renamed_definitions_in_order :
+  forall nm u operands gi go_ R0 body st rb st',
+  (fix go (st : rstate) (l : list onode) {struct l} : res (list mraw * rstate) :=
+     match l with
+     | [] => ret ([], st)
+     | n :: t => do rn <- rename_onode nm u operands gi go_ st n ;; do rt <- go (snd rn) t ;; ret (fst rn :: fst rt, snd rt)
+     end) st body = inl (rb, st') -> InvV R0 st ->
+  St_le st st' /\ InvV R0 st' /\ Seq u operands gi go_ st' (flat_map odefs_node body) (flat_map defs_raw rb).
+Proof. exact body_loop_seq. Qed.
+Print Assumptions C08_block_definitions_are_the_renamed_definitions_in_order.
+
+Theorem C08_one_definition_per_name_is_preserved :
+  forall u operands gi go_ st i r, Seq u operands gi go_ st i r -> NoDup i ->
+  (forall d d' x, In d i -> In d' i -> Rn u operands gi go_ st d x -> Rn u operands gi go_ st d' x -> x <> ""%string -> d = d') ->
+  NoDup (nonempty r).
+Proof. exact Seq_NoDup. Qed.
+Print Assumptions C08_one_definition_per_name_is_preserved.
